@@ -49,6 +49,8 @@ def lean_type(t, structs):
         return 'Unit'
     if t == STR:
         return 'List Char'
+    if isinstance(t, tuple) and t[0] == 'opt':
+        return 'Option (%s)' % lean_type(t[1], structs)
     if t == HEX4:
         return 'Int'            # the text hex(X)[4:].rstrip('L') is carried as X itself; its only use is binascii.unhexlify
     if isinstance(t, tuple) and t[0] == 'list':
@@ -85,6 +87,14 @@ def hex_sentinel_arg(e):
             if isinstance(h, ast.Call) and isinstance(h.func, ast.Name) and h.func.id == 'hex' and len(h.args) == 1:
                 return h.args[0]
     return None
+
+
+def is_dict_try(s):
+    """try: return {k: v, ...}[key]  except KeyError: raise E(...)"""
+    return (len(s.body) == 1 and isinstance(s.body[0], ast.Return) and isinstance(s.body[0].value, ast.Subscript)
+            and isinstance(s.body[0].value.value, ast.Dict) and len(s.handlers) == 1 and not s.orelse and not s.finalbody
+            and isinstance(s.handlers[0].type, ast.Name) and s.handlers[0].type.id == 'KeyError'
+            and len(s.handlers[0].body) == 1 and isinstance(s.handlers[0].body[0], ast.Raise))
 
 
 def bin_sentinel_arg(e):
@@ -182,6 +192,10 @@ class Translator:
         self.order = []
         self.out = []
         self.sources = {}
+        self.exc_sigs = {}
+        self.consts = {}
+        self.parents = {'IndexError': 'LookupError', 'KeyError': 'LookupError', 'LookupError': 'Exception', 'ValueError': 'Exception',
+                        'TypeError': 'Exception', 'NotImplementedError': 'RuntimeError', 'RuntimeError': 'Exception'}
 
     # ------------------------------------------------------------------ loading
     def load(self, targets):
@@ -191,6 +205,21 @@ class Translator:
             self.sources[mod_key] = spec['file']
             tree = ast.parse(src)
             top = {n.name: n for n in tree.body if isinstance(n, (ast.FunctionDef, ast.ClassDef))}
+            self.exc_sigs[mod_key] = spec.get('exceptions', {})
+            consts = {}
+            for n in tree.body:
+                if isinstance(n, ast.Assign) and len(n.targets) == 1 and isinstance(n.targets[0], ast.Name) and n.targets[0].id in spec.get('constants', []):
+                    consts[n.targets[0].id] = n.value
+            for cname in spec.get('constants', []):
+                if cname not in consts:
+                    raise Unsupported('%s: module constant %s not found' % (mod_key, cname))
+            self.consts[mod_key] = consts
+            for extra in [spec['file']] + spec.get('exception_files', []):
+                etree = ast.parse(open(os.path.join(self.repo, extra)).read())
+                for n in etree.body:
+                    if isinstance(n, ast.ClassDef) and n.bases and n.name.endswith('Error'):
+                        b = n.bases[0]
+                        self.parents[n.name] = b.id if isinstance(b, ast.Name) else (b.attr if isinstance(b, ast.Attribute) else 'Exception')
             for fname, cfg in spec.get('functions', {}).items():
                 if fname not in top or not isinstance(top[fname], ast.FunctionDef):
                     raise Unsupported('%s: function %s not found in %s' % (mod_key, fname, spec['file']))
@@ -281,12 +310,26 @@ class Translator:
                             direct = True     # self.chunks.append(...)
                 fn.mutates = direct
                 del names
+        for fn in self.fns.values():
+            sigs = self.exc_sigs.get(fn.key.split('.')[0], {})
+            fn.rich = False
+            for n in ast.walk(fn.node):
+                if isinstance(n, ast.Raise) and isinstance(n.exc, ast.Call) and isinstance(n.exc.func, ast.Name) and n.exc.func.id in sigs:
+                    fn.rich = True
+                if isinstance(n, ast.Try) and not is_dict_try(n):
+                    fn.rich = True
+            if fn.rich:
+                fn.partial = True
         changed = True
         while changed:
             changed = False
             for fn in self.fns.values():
                 for k in fn.calls:
                     c = self.fns[k]
+                    if c.rich and not fn.rich:
+                        fn.rich = True
+                        fn.partial = True
+                        changed = True
                     if c.partial and not fn.partial:
                         fn.partial = True
                         changed = True
@@ -333,10 +376,20 @@ class Translator:
             if isinstance(v, str) and all(32 <= ord(c) < 127 and c not in "'\\" for c in v):
                 return '([%s] : List Char)' % ', '.join("'%s'" % c for c in v), STR
             raise Unsupported('constant %r' % (v,))
+        if isinstance(e, ast.Name) and e.id not in env and e.id in self.consts.get(fn.key.split('.')[0], {}):
+            return self.expr(fn, self.consts[fn.key.split('.')[0]][e.id], {})
+        if isinstance(e, ast.Name) and e.id in getattr(fn, 'const_params', {}):
+            return self.expr(fn, ast.Constant(value=fn.const_params[e.id]), {})
         if isinstance(e, ast.Name):
             if e.id not in env:
                 raise Unsupported('%s: name %s read before assignment (or not a local)' % (fn.key, e.id))
             return e.id, env[e.id]
+        if isinstance(e, ast.Attribute) and isinstance(e.value, ast.Name) and e.value.id in env \
+                and isinstance(env[e.value.id], tuple) and env[e.value.id][0] == 'exc':
+            sig = [p_ for p_ in self.exc_sig(fn).get(env[e.value.id][1], []) if p_ != 'message']
+            if e.attr not in sig:
+                raise Unsupported('%s: attribute %s of exception %s' % (fn.key, e.attr, env[e.value.id][1]))
+            return '(Py.excArg e__ %d)' % sig.index(e.attr), INT
         if isinstance(e, ast.Attribute) and isinstance(e.value, ast.Name) and e.value.id in env \
                 and isinstance(env[e.value.id], tuple) and env[e.value.id][0] == 'struct':
             return '%s.%s' % (e.value.id, e.attr), self.field_type(env[e.value.id][1], e.attr)
@@ -364,7 +417,7 @@ class Translator:
                     raise Unsupported('int operator %s' % ast.dump(op))
                 if isinstance(op, (ast.LShift, ast.RShift)) and P and not (isinstance(e.right, ast.Constant) and e.right.value >= 0):
                     # a shift count that comes from data: Python raises ValueError when it is negative
-                    return '(← Py.%sE %s %s)' % ('shl' if isinstance(op, ast.LShift) else 'shr', a, b), INT
+                    return self.bind(fn, 'Py.%sE %s %s' % ('shl' if isinstance(op, ast.LShift) else 'shr', a, b), env=env), INT
                 return table[type(op)] % (a, b), INT
             if isinstance(e.op, ast.Add) and ta == tb and (ta in (BYTES, STR) or (isinstance(ta, tuple) and ta[0] == 'list')):
                 return '(%s ++ %s)' % (a, b), ta
@@ -437,7 +490,7 @@ class Translator:
                 if ti != INT:
                     raise Unsupported('index of type %r' % (ti,))
                 assert P
-                return '(← Py.strIdx %s %s)' % (base, i), STR
+                return self.bind(fn, 'Py.strIdx %s %s' % (base, i), env=env), STR
             et = INT if tb == BYTES else (None if tb == STR else tb[1])
             if isinstance(e.slice, ast.Slice):
                 sl = e.slice
@@ -460,7 +513,7 @@ class Translator:
             if ti != INT:
                 raise Unsupported('index of type %r' % (ti,))
             assert P
-            return '(← Py.getIdx %s %s)' % (base, i), et
+            return self.bind(fn, 'Py.getIdx %s %s' % (base, i), env=env), et
         if isinstance(e, ast.Call):
             x = hex_sentinel_arg(e)
             if x is not None:
@@ -506,7 +559,7 @@ class Translator:
                 if t != STR:
                     raise Unsupported('int(%r, 2)' % (t,))
                 assert fn.partial
-                return '(← Py.intOfBin %s)' % a, INT
+                return self.bind(fn, 'Py.intOfBin %s' % a, env=env), INT
             if f.id == 'int' and len(args) == 1:
                 a, t = self.expr(fn, args[0], env)
                 if t == INT:
@@ -514,7 +567,14 @@ class Translator:
                 if t != STR:
                     raise Unsupported('int(%r)' % (t,))
                 assert fn.partial
-                return '(← Py.intOfDec %s)' % a, INT
+                return self.bind(fn, 'Py.intOfDec %s' % a, env=env), INT
+            if f.id == 'sum' and len(args) == 1:
+                a, t = self.expr(fn, args[0], env)
+                if isinstance(t, tuple) and t[0] == 'tuple' and all(x == INT for x in t[1:]):
+                    n_ = len(t) - 1
+                    if n_ == 2:
+                        return '(let t__ := %s; t__.1 + t__.2)' % a, INT
+                raise Unsupported('sum of %r' % (t,))
             if f.id == 'divmod' and len(args) == 2:
                 a, _ = self.expr(fn, args[0], env)
                 b, _ = self.expr(fn, args[1], env)
@@ -530,7 +590,7 @@ class Translator:
             if t != HEX4:
                 raise Unsupported('unhexlify of something else than hex(X)[4:].rstrip(\'L\')')
             assert fn.partial
-            return '(← Py.unhexAfter4 %s)' % a, BYTES
+            return self.bind(fn, 'Py.unhexAfter4 %s' % a, env=env), BYTES
         if isinstance(f, ast.Attribute) and f.attr == 'bit_length' and not args:
             a, t = self.expr(fn, f.value, env)
             if t != INT:
@@ -547,7 +607,7 @@ class Translator:
                 largs = [recv] + largs
             txt = '%s %s' % (c.lean_name, ' '.join(largs)) if largs else c.lean_name
             if c.partial:
-                return '(← %s)' % txt, c.ret
+                return self.bind(fn, txt, callee=c, env=env), c.ret
             return '(%s)' % txt, c.ret
         raise Unsupported('%s: call %s' % (fn.key, ast.dump(e)[:120]))
 
@@ -595,6 +655,104 @@ class Translator:
                         terms.append('Py.fuelOfList %s.%s' % (p, f))
         return ' + '.join(['1'] + terms)
 
+    def try_stmt(self, fn, s, rest, env, tail, ind):
+        """try: BODY except C1 [as e]: H1 except C2: H2 …   (no else / finally).  BODY either always returns, or never returns
+        (then the names it binds are the value of the protected block).  A handler matches the exception class and its
+        subclasses (class table taken from the source); an exception that no handler matches propagates."""
+        if s.orelse or s.finalbody or not getattr(fn, 'rich', False):
+            raise Unsupported('%s: try with else / finally' % fn.key)
+        pad = '  ' * ind
+        lines = []
+        body_returns = always_returns(s.body)
+        if not body_returns and contains_return(s.body):
+            raise Unsupported('%s: try body that returns on some paths only' % fn.key)
+        hs = []
+        for h in s.handlers:
+            if not isinstance(h.type, ast.Name):
+                raise Unsupported('%s: except clause without a single class name' % fn.key)
+            hs.append((h.type.id, h.name, h.body))
+        if body_returns:
+            # value of the whole statement = value of the function
+            lines.append('%smatch (show Except Py.Err _ from do' % pad)
+            lines += self.block(fn, s.body, env, None, ind + 2)
+            lines.append('%s  ) with' % pad)
+            lines.append('%s| .ok v__ => pure v__' % pad)
+            lines.append('%s| .error e__ =>' % pad)
+            lines += self.handlers(fn, hs, rest, env, tail, ind + 1, after=None)
+            return lines
+        # BODY falls through: its statements are translated in place; every raising step inside is wrapped with the handlers
+        for hname, hvar, hbody in hs:
+            if len(hbody) != 1 or not isinstance(hbody[0], ast.Raise):
+                raise Unsupported('%s: a handler of a try whose body falls through must be a single raise' % fn.key)
+        if any(isinstance(n, ast.Raise) for b in s.body for n in ast.walk(b)):
+            raise Unsupported('%s: explicit raise inside a try body' % fn.key)
+        fn.catch_stack = getattr(fn, 'catch_stack', []) + [hs]
+        try:
+            inner = self.block(fn, list(s.body), env, '@try', ind)
+        finally:
+            fn.catch_stack = fn.catch_stack[:-1]
+        env2 = self.try_env
+        lines += inner
+        lines += self.block(fn, rest, env2, tail, ind)
+        return lines
+
+    def handlers(self, fn, hs, rest, env, tail, ind, after):
+        pad = '  ' * ind
+        lines = []
+        for hname, hvar, hbody in hs:
+            lines.append('%sif Py.isSub excParent e__.cls "%s" then' % (pad, hname))
+            henv = dict(env)
+            if hvar:
+                henv[hvar] = ('exc', hname)
+            blk = self.block(fn, list(hbody), henv, None, ind + 2)
+            if hvar:
+                blk = [l.replace('%s__EXC__' % hvar, 'e__') for l in blk]
+            lines.append('%s  (do' % pad)
+            lines += blk
+            lines[-1] += ')'
+            lines.append('%selse' % pad)
+        lines.append('%s  throw e__' % pad)
+        return lines
+
+    def exc_sig(self, fn):
+        """exception class -> constructor parameter names, for the module the function lives in (TARGETS[...]['exceptions'])"""
+        return self.exc_sigs.get(fn.key.split('.')[0], {})
+
+    def err_ty(self, fn):
+        return 'Py.Err' if getattr(fn, 'rich', False) else 'String'
+
+    def catch_wrap(self, fn, txt, env):
+        """inside a `try` body: the handlers see the variables as they are AT THE POINT where the exception is raised, so every
+        raising step is wrapped on the spot (the handler text refers to the current bindings by name)"""
+        for hs in reversed(getattr(fn, 'catch_stack', [])):
+            chain = 'throw e__'
+            for hname, hvar, hbody in reversed(hs):
+                r = hbody[0]
+                henv = dict(env)
+                if hvar:
+                    henv[hvar] = ('exc', hname)
+                hl = self.block(fn, [r], henv, None, 0)
+                if len(hl) != 1:
+                    raise Unsupported('%s: handler too complex to inline' % fn.key)
+                chain = 'if Py.isSub excParent e__.cls "%s" then %s else %s' % (hname, hl[0].strip(), chain)
+            txt = 'Py.catchWith (%s) (fun e__ => %s)' % (txt, chain)
+        return txt
+
+    def bind(self, fn, txt, callee=None, env=None):
+        """`(← txt)`; a computation in `Except String` (primitives, functions that raise plain exceptions) used inside a function
+        whose exceptions carry data (`Except Py.Err`) is lifted"""
+        return '(← %s)' % self.arrow_rhs(fn, callee, txt, env)
+
+    def arrow_rhs(self, fn, callee, txt, env=None):
+        """right-hand side of `let pat ← …` / inside `(← …)` for a raising primitive or a call of a partial callee"""
+        if getattr(fn, 'rich', False) and not (callee is not None and getattr(callee, 'rich', False)):
+            txt = 'Py.liftE (%s)' % txt
+        if getattr(fn, 'catch_stack', None):
+            if env is None:
+                raise Unsupported('%s: raising step inside try without an environment' % fn.key)
+            txt = self.catch_wrap(fn, txt, env)
+        return txt
+
     def is_mutating_call(self, fn, e):
         if isinstance(e, ast.Call):
             k = self.resolve_call(fn, e)
@@ -624,7 +782,8 @@ class Translator:
                 fn.tmp_count = getattr(fn, 'tmp_count', 0) + 1
                 tmp = 'tmp%d__' % fn.tmp_count
                 largs = [recv] + [self.expr(fn, a, env)[0] for a in e.args]
-                lines.append('%slet (%s, %s) %s %s %s' % (pad, recv, tmp, '←' if c.partial else ':=', c.lean_name, ' '.join(largs)))
+                ctxt = '%s %s' % (c.lean_name, ' '.join(largs))
+                lines.append('%slet (%s, %s) %s %s' % (pad, recv, tmp, '←' if c.partial else ':=', self.arrow_rhs(fn, c, ctxt, env) if c.partial else ctxt))
                 env[tmp] = c.ret
                 return ast.Name(id=tmp, ctx=ast.Load())
             return e
@@ -673,20 +832,24 @@ class Translator:
                     s.test = self.hoist(fn, s.test, env, lines, pad)
             elif isinstance(s, ast.While) and self.has_mutating_call(fn, s.test):
                 raise Unsupported('%s: state-changing call in a loop condition' % fn.key)
+            if isinstance(s, ast.Try) and not is_dict_try(s):
+                lines += self.try_stmt(fn, s, rest, env, tail, ind)
+                return lines
             if isinstance(s, ast.Try):
-                # only: try: return {k: v, ...}[key]  except KeyError: raise E(...)
-                ok = (len(s.body) == 1 and isinstance(s.body[0], ast.Return) and isinstance(s.body[0].value, ast.Subscript)
-                      and isinstance(s.body[0].value.value, ast.Dict) and len(s.handlers) == 1 and not s.orelse and not s.finalbody
-                      and isinstance(s.handlers[0].type, ast.Name) and s.handlers[0].type.id == 'KeyError'
-                      and len(s.handlers[0].body) == 1 and isinstance(s.handlers[0].body[0], ast.Raise))
-                if not ok:
-                    raise Unsupported('%s: try statement (only `try: return {...}[k] except KeyError: raise E` is supported)' % fn.key)
                 d = s.body[0].value.value
                 key_e = s.body[0].value.slice
                 chain = list(s.handlers[0].body)
                 for kk, vv in reversed(list(zip(d.keys, d.values))):
                     chain = [ast.If(test=ast.Compare(left=key_e, ops=[ast.Eq()], comparators=[kk]), body=[ast.Return(value=vv)], orelse=chain)]
                 lines += self.block(fn, chain, env, None, ind)
+                return lines
+            if isinstance(s, ast.Return) and getattr(fn, 'opt_ret', False):
+                if s.value is None or (isinstance(s.value, ast.Constant) and s.value.value is None):
+                    lines.append(pad + ('pure none' if P else 'none'))
+                else:
+                    a, t = self.expr(fn, s.value, env)
+                    self.note_ret(fn, ('opt', t))
+                    lines.append(pad + (('pure (some %s)' if P else '(some %s)') % a))
                 return lines
             if isinstance(s, ast.Return):
                 if s.value is None:
@@ -706,7 +869,21 @@ class Translator:
                     (exc.id if isinstance(exc, ast.Name) else None)
                 if name is None:
                     raise Unsupported('raise of %s' % ast.dump(exc)[:80])
-                lines.append('%sthrow "%s"' % (pad, name))
+                if getattr(fn, 'rich', False):
+                    sig = self.exc_sig(fn).get(name)
+                    vals = []
+                    if sig and isinstance(exc, ast.Call):
+                        for pos, pname in enumerate(sig):
+                            node_ = exc.args[pos] if pos < len(exc.args) else next((k.value for k in exc.keywords if k.arg == pname), None)
+                            if pname == 'message' or node_ is None:
+                                continue
+                            a_, t_ = self.expr(fn, node_, env)
+                            if t_ != INT:
+                                raise Unsupported('%s: exception attribute %s of type %r' % (fn.key, pname, t_))
+                            vals.append(a_)
+                    lines.append('%sthrow (Py.Err.mk "%s" [%s])' % (pad, name, ', '.join(vals)))
+                else:
+                    lines.append('%sthrow "%s"' % (pad, name))
                 return lines
             if isinstance(s, ast.Assign):
                 if len(s.targets) != 1:
@@ -722,7 +899,8 @@ class Translator:
                         if not isinstance(t, ast.Name):
                             raise Unsupported('target of a mutating call')
                         arrow = '←' if c.partial else ':='
-                        lines.append('%slet (%s, %s) %s %s %s' % (pad, recv, t.id, arrow, c.lean_name, ' '.join(largs)))
+                        ctxt = '%s %s' % (c.lean_name, ' '.join(largs))
+                        lines.append('%slet (%s, %s) %s %s' % (pad, recv, t.id, arrow, self.arrow_rhs(fn, c, ctxt, env) if c.partial else ctxt))
                         env[t.id] = c.ret
                         continue
                 a, ta = self.expr(fn, s.value, env)
@@ -772,7 +950,8 @@ class Translator:
                         largs = [recv] + [self.expr(fn, a, env)[0] for a in c.args]
                         arrow = '←' if callee.partial else ':='
                         pat = recv if callee.ret in (None, NONE) else '(%s, _)' % recv
-                        lines.append('%slet %s %s %s %s' % (pad, pat, arrow, callee.lean_name, ' '.join(largs)))
+                        ctxt = '%s %s' % (callee.lean_name, ' '.join(largs))
+                        lines.append('%slet %s %s %s' % (pad, pat, arrow, self.arrow_rhs(fn, callee, ctxt, env) if callee.partial else ctxt))
                         continue
                     # a pure call as a statement has no effect except a possible exception
                     a, _ = self.expr(fn, c, env)
@@ -812,6 +991,10 @@ class Translator:
                     del attr_t
                     continue
                 raise Unsupported('%s: call statement %s' % (fn.key, ast.dump(c)[:100]))
+            if isinstance(s, ast.If) and isinstance(s.test, ast.Name) and s.test.id in getattr(fn, 'const_params', {}):
+                chosen = s.body if fn.const_params[s.test.id] else s.orelse
+                lines += self.block(fn, list(chosen) + list(rest), env, tail, ind)
+                return lines
             if isinstance(s, ast.If):
                 cond = self.as_bool(*self.expr(fn, s.test, env))
                 a_ret, b_ret = always_returns(s.body), (always_returns(s.orelse) if s.orelse else False)
@@ -823,15 +1006,14 @@ class Translator:
                     lines.append('%selse' % pad)
                     lines += self.sub(fn, s.orelse, env, None, ind + 1)
                     return lines
-                if a_ret or b_ret:
-                    # the returning branch ends the function; the other one continues with the rest of the block
+                if a_ret or b_ret or contains_return(s.body) or contains_return(s.orelse):
+                    # a branch that (sometimes) returns ends the function there; every path that falls through continues with
+                    # (a copy of) the rest of the block
                     lines.append('%sif %s then' % (pad, cond))
                     lines += self.sub(fn, s.body + ([] if a_ret else rest), env, None if a_ret else tail, ind + 1)
                     lines.append('%selse' % pad)
                     lines += self.sub(fn, (s.orelse if b_ret else s.orelse + rest), env, None if b_ret else tail, ind + 1)
                     return lines
-                if contains_return(s.body) or contains_return(s.orelse):
-                    raise Unsupported('%s: return nested in a branch that may also fall through' % fn.key)
                 mod = [n for n in self.mods(fn, s.body + s.orelse)]
                 new = [n for n in mod if n not in env]
                 if new:
@@ -867,7 +1049,7 @@ class Translator:
                 lname = '%s_loop%d' % (fn.lean_name, fn.loop_count)
                 sig = ' → '.join(['Nat'] + ['(%s)' % lean_type(env[p_], self.structs) for p_ in params])
                 rt = self.tup_type(mod, env)
-                L = ['def %s : %s → %s' % (lname, sig, ('Except String (%s)' % rt) if P else rt)]
+                L = ['def %s : %s → %s' % (lname, sig, ('Except %s (%s)' % (self.err_ty(fn), rt)) if P else rt)]
                 L.append('  | 0, %s => %s' % (', '.join(params), ('pure ' if P else '') + self.tup(mod)))
                 L.append('  | fuel + 1, %s =>%s' % (', '.join(params), ' do' if P else ''))
                 benv = dict(env)
@@ -893,7 +1075,7 @@ class Translator:
                 lname = '%s_loop%d' % (fn.lean_name, fn.loop_count)
                 sig = ' → '.join(['Nat'] + ['(%s)' % lean_type(env[p], self.structs) for p in params])
                 rt = self.tup_type(mod, env)
-                rtxt = ('Except String (%s)' % rt) if P else rt
+                rtxt = ('Except %s (%s)' % (self.err_ty(fn), rt)) if P else rt
                 L = ['def %s : %s → %s' % (lname, sig, rtxt)]
                 L.append('  | 0, %s => %s' % (', '.join(params), ('pure ' if P else '') + self.tup(mod)))
                 L.append('  | fuel + 1, %s =>%s' % (', '.join(params), ' do' if P else ''))
@@ -958,6 +1140,9 @@ class Translator:
                 continue
             raise Unsupported('%s: statement %s' % (fn.key, type(s).__name__))
         # fell off the end
+        if tail == '@try':
+            self.try_env = env
+            return lines
         if tail == '@loop':
             return lines
         if tail is None:
@@ -967,7 +1152,7 @@ class Translator:
             for n in tail:
                 if n not in env:
                     raise Unsupported('%s: %s may be unbound at the end of a branch' % (fn.key, n))
-            lines.append(pad + (('pure ' if P else '') + self.tup(tail)))
+            lines.append(pad + (('pure ' if P else '') + (self.tup(tail) if tail else '()')))
         return lines
 
     def sub(self, fn, stmts, env, tail, ind):
@@ -1031,6 +1216,8 @@ class Translator:
         env = {}
         ptypes = fn.cfg.get('params', {})
         is_init = fn.cls is not None and node.name == '__init__'
+        fn.const_params = dict(fn.cfg.get('const_params', {}))
+        params = [p for p in params if p not in fn.const_params]
         for p in params:
             if p == 'self' and fn.cls:
                 env[p] = ('struct', fn.cls)
@@ -1038,10 +1225,15 @@ class Translator:
                 if p not in ptypes:
                     raise Unsupported('%s: no declared type for parameter %s' % (fn.key, p))
                 env[p] = parse_type(ptypes[p])
-        if node.args.vararg or node.args.kwarg or node.args.kwonlyargs or node.args.defaults:
-            raise Unsupported('%s: parameter kinds' % fn.key)
+        ndef = len(node.args.defaults)
+        defaulted = [a.arg for a in node.args.args][len(node.args.args) - ndef:] if ndef else []
+        if node.args.vararg or node.args.kwarg or node.args.kwonlyargs or any(d not in fn.const_params for d in defaulted):
+            raise Unsupported('%s: parameter kinds (a parameter with a default value must be fixed in const_params)' % fn.key)
         if 'ret' in fn.cfg:
             fn.ret = parse_type(fn.cfg['ret'])
+        rets = [n for n in ast.walk(node) if isinstance(n, ast.Return)]
+        none_rets = [r for r in rets if r.value is None or (isinstance(r.value, ast.Constant) and r.value.value is None)]
+        fn.opt_ret = bool(none_rets) and len(none_rets) < len(rets) and not (fn.cls and fn.mutates)
         fn.loop_count = 0
         body = self.block(fn, node.body, env, None, 1)
         ret = fn.ret if fn.ret is not None else NONE
@@ -1052,7 +1244,7 @@ class Translator:
         else:
             rt = lean_type(ret, self.structs)
         if fn.partial:
-            rt = 'Except String (%s)' % rt
+            rt = 'Except %s (%s)' % (self.err_ty(fn), rt)
         sig = ' '.join('(%s : %s)' % (p, lean_type(env[p], self.structs)) for p in params if not (is_init and p == 'self'))
         head = 'def %s %s : %s :=%s' % (fn.lean_name, sig, rt, ' do' if fn.partial else '')
         if is_init:
@@ -1077,6 +1269,12 @@ class Translator:
                 hdr.append('  %s : %s' % (f, lean_type(t, self.structs)))
             hdr.append('  deriving Repr, BEq, DecidableEq')
             hdr.append('')
+        hdr.append('/-- base class of each exception class (from the `class X(Y)` statements of the source; builtins added) -/')
+        hdr.append('def excParent : String → Option String')
+        for c_, b_ in sorted(self.parents.items()):
+            hdr.append('  | "%s" => some "%s"' % (c_, b_))
+        hdr.append('  | _ => none')
+        hdr.append('')
         for k in self.order:
             self.function(self.fns[k])
         return '\n'.join(hdr) + '\n' + '\n'.join(self.out) + '\nend Asn1.Translated\n'
@@ -1100,13 +1298,15 @@ class Translator:
         L.append('  match name, args with')
         for k in self.order:
             fn = self.fns[k]
-            params = [a.arg for a in fn.node.args.args]
+            params = [a.arg for a in fn.node.args.args if a.arg not in fn.cfg.get('const_params', {})]
             if fn.cls and fn.node.name == '__init__':
                 params = params[1:]
             pats = ', '.join('a%d' % i for i in range(len(params)))
             calls = ' '.join('(← Wire.ofSx a%d)' % i for i in range(len(params)))
             body = '%s %s' % (fn.lean_name, calls)
-            if fn.partial:
+            if fn.partial and getattr(fn, 'rich', False):
+                L.append('  | "%s", [%s] => do pure (errToSx (%s))' % (fn.key, pats, body))
+            elif fn.partial:
                 L.append('  | "%s", [%s] => do pure (exceptToSx (%s))' % (fn.key, pats, body))
             else:
                 L.append('  | "%s", [%s] => do pure (Wire.toSx (%s))' % (fn.key, pats, body))
@@ -1126,7 +1326,17 @@ TARGETS = {
             'encode_tag': {'params': {'number': 'int', 'flags': 'int'}},
             'encode_object_identifier_subidentifier': {'params': {'subidentifier': 'int'}},
             'decode_object_identifier_subidentifier': {'params': {'data': 'bytes', 'offset': 'int'}},
+            'skip_tag': {'params': {'data': 'bytes', 'offset': 'int'}},
+            'decode_length': {'params': {'encoded': 'bytes', 'offset': 'int'}, 'const_params': {'enforce_definite': True}},
+            'read_tag': {'params': {'data': 'bytes', 'offset': 'int'}},
+            'skip_tag_length_contents': {'params': {'data': 'bytes', 'offset': 'int'}},
+            'detect_end_of_contents_tag': {'params': {'data': 'bytes', 'offset': 'int'}},
+            'decode_full_length': {'params': {'data': 'bytes'}},
         },
+        'constants': ['END_OF_CONTENTS_OCTETS'],
+        'exceptions': {'OutOfByteDataError': ['message', 'offset'], 'MissingDataError': ['message', 'offset', 'expected_length'],
+                       'DecodeError': ['message', 'offset']},
+        'exception_files': ['asn1tools/codecs/__init__.py', 'asn1tools/errors.py'],
     },
     'oer': {
         'file': 'asn1tools/codecs/oer.py',
